@@ -75,4 +75,46 @@ theorem fp2_pow_vartime_eq (out x acc0 : Fp2 α) (exp : List Nat) :
     funext s j; exact loop_1_eq O x exp exp.length s j
   rw [e, loopAcc_getD (fun s w => powWord O w 64 s) exp]; rfl
 
+/-! ## `fp2_batched_inv`: the five loop bodies re-extracted from the C text (arrays as lists, `List.set` / `List.getD`) are the steps
+of the hand model `SqiModel.Gf.fp2_batched_inv` (`scanFrom (fp2_mul O)`, `zipWith (fp2_mul O)`, the two `zipWith … fp2_select`).
+PARTIAL: step level only; the loop structure / bounds / straight-line glue are text-checked by the translator, not proved equal. -/
+
+open SqiGen.Fp2Loops in
+/-- loop 1 (`z[i] = fp2_is_zero(&x[i]); fp2_select(&x[i], &x[i], &one, z[i])`): entry `i` becomes the model's
+    `fp2_select O x (fp2_set_one O) (fp2_is_zero O x)` when `one = fp2_set_one O`, `i < z.length` -/
+theorem batched_loop_1_eq (junk : Fp2 α) (len : Nat) (t1 t2 : List (Fp2 α)) (inverse one zero : Fp2 α)
+    (z : List Nat) (x : List (Fp2 α)) (i : Nat) (hi : i < z.length) :
+    fp2_batched_inv_loop_1 O junk len t1 t2 inverse one zero (z, x) i =
+      (z.set i (fp2_is_zero O (x.getD i junk)), x.set i (fp2_select O (x.getD i junk) one (fp2_is_zero O (x.getD i junk)))) := by
+  have e : (z.set i (fp2_is_zero O (x.getD i junk))).getD i 0 = fp2_is_zero O (x.getD i junk) := by
+    simp [List.getD, hi]
+  show (z.set i (fp2_is_zero O (x.getD i junk)),
+        x.set i (fp2_select O (x.getD i junk) one ((z.set i (fp2_is_zero O (x.getD i junk))).getD i 0))) = _
+  rw [e]
+
+open SqiGen.Fp2Loops in
+/-- loop 2 (`t1[i] = t1[i-1]·x[i]`): the `scanFrom (fp2_mul O)` step of the prefix products -/
+theorem batched_loop_2_eq (junk : Fp2 α) (len : Nat) (x t2 : List (Fp2 α)) (z : List Nat) (inverse one zero : Fp2 α)
+    (t1 : List (Fp2 α)) (i : Nat) :
+    fp2_batched_inv_loop_2 O junk len x t2 z inverse one zero t1 i = t1.set i (fp2_mul O (t1.getD (i - 1) junk) (x.getD i junk)) := rfl
+
+open SqiGen.Fp2Loops in
+/-- loop 3 (`t2[i] = t2[i-1]·x[len-i]`): the `scanFrom (fp2_mul O)` step over the reversed batch -/
+theorem batched_loop_3_eq (junk : Fp2 α) (len : Nat) (x t1 : List (Fp2 α)) (z : List Nat) (inverse one zero : Fp2 α)
+    (t2 : List (Fp2 α)) (i : Nat) :
+    fp2_batched_inv_loop_3 O junk len x t1 z inverse one zero t2 i = t2.set i (fp2_mul O (t2.getD (i - 1) junk) (x.getD (len - i) junk)) := rfl
+
+open SqiGen.Fp2Loops in
+/-- loop 4 (`x[i] = t1[i-1]·t2[len-i-1]`): the `zipWith (fp2_mul O) t1.dropLast t2.reverse.tail` step -/
+theorem batched_loop_4_eq (junk : Fp2 α) (len : Nat) (t1 t2 : List (Fp2 α)) (z : List Nat) (inverse one zero : Fp2 α)
+    (x : List (Fp2 α)) (i : Nat) :
+    fp2_batched_inv_loop_4 O junk len t1 t2 z inverse one zero x i =
+      x.set i (fp2_mul O (t1.getD (i - 1) junk) (t2.getD (len - i - 1) junk)) := rfl
+
+open SqiGen.Fp2Loops in
+/-- loop 5 (`fp2_select(&x[i], &x[i], &zero, z[i])`): the model's final `zipWith (fun y zi => fp2_select O y (fp2_set_zero O) zi)` step -/
+theorem batched_loop_5_eq (junk : Fp2 α) (len : Nat) (t1 t2 : List (Fp2 α)) (z : List Nat) (inverse one zero : Fp2 α)
+    (x : List (Fp2 α)) (i : Nat) :
+    fp2_batched_inv_loop_5 O junk len t1 t2 z inverse one zero x i = x.set i (fp2_select O (x.getD i junk) zero (z.getD i 0)) := rfl
+
 end SqiProofs.Fp2LoopsGen
